@@ -554,7 +554,7 @@ def _c20(tier):
     res.samples = [dict(scenarios=res.counters.get("scenarios", 0), allocations_observed=res.counters.get("allocations_observed", 0),
                         fail_positions_enumerated=res.counters.get("fail_positions_enumerated", 0), allocation_sites_seen=sites)]
     return finish(res, tier, "fault_enumeration",
-                  "26 scenarios chosen to reach every allocation site of the library (%ls copy incl. its conversion-error exit, the four long-double / hex-float directive copies, the heap copy of a long-double rendering of 64 or more characters, the "
+                  "28 scenarios chosen to reach every allocation site of the library (%ls copy incl. its conversion-error exit, the four long-double / hex-float directive copies, the heap copy of a long-double rendering of 64 or more characters, the "
                   "no-space probes of the four wide buffer printf functions with dmax >= 512, normalisation scratch for len+2 >= 128, combining-sequence growth in reorder and compose, "
                   "the two fold buffers of wcsicmp_s and of wcsnatcmp_s incl. their error exits); for each scenario a learning run counts the allocations A made during the call, then every position "
                   "k = 1..A is failed in turn (complete per scenario); distinct = (scenario, fail position, outcome)", t0,
